@@ -3,7 +3,7 @@
 (* unprotect and Child SA derivations on long-lived SA key objects -- made concrete and replayed on real long-lived *)
 (* IKESAKey objects.  The expected result of every operation is what a FRESH object with the same keys gives.       *)
 EXTENDS SKLife, Pools
-CONSTANTS MaxOps
+CONSTANTS MaxOps, Stride      \* Stride > 1: only every Stride-th finished history (by hash) is printed
 VARIABLES sent, net, macbuf, prfbuf, outcome, fresh, decBeforeMac, cipherOnPlain, ops, done
 SC == INSTANCE SKChannel WITH Msgs <- {"m1", "m2"}, ResetBeforeMac <- TRUE, ResetPerPrfBlock <- TRUE, MacFirst <- TRUE, PeerKeys <- TRUE
 
@@ -74,7 +74,7 @@ HistoryVector(s) ==
 \* successors of a state before picking one, so printing is tied to the single successor of a finished history
 Init == SC!Init /\ done = FALSE
 Next == \/ ~done /\ SC!Next /\ done' = FALSE
-        \/ ~done /\ Len(ops) = MaxOps /\ done' = TRUE /\ UNCHANGED << sent, net, macbuf, prfbuf, outcome, fresh, decBeforeMac, cipherOnPlain, ops >>
+        \/ ~done /\ Len(ops) = MaxOps /\ (Stride = 1 \/ Hash(ops) % Stride = Seed % Stride) /\ done' = TRUE /\ UNCHANGED << sent, net, macbuf, prfbuf, outcome, fresh, decBeforeMac, cipherOnPlain, ops >>
 Emit == done => PrintT(ToJson(HistoryVector(ops)))
 Sound == SC!AsFresh /\ SC!AcceptOnlySent /\ SC!RoundTrip /\ SC!MacBeforeDecrypt
 =============================================================================
